@@ -29,6 +29,7 @@ CONSTANTS
     Inner(_),       \* Inner(o): the set of complete case records for outer choice o
     Escapes,        \* the path tokens that are percent escapes
     Encoded,        \* function: text that cannot stand in a path as it is |-> the escape it is written as ("^" |-> "%5E")
+    Faulty,         \* the upstream answer scripts in which the upstream dies before its answer is complete
     Decoded         \* function: escape, in any spelling a client may use |-> the text it stands for ("%5e" |-> "^")
 
 VARIABLES
@@ -70,7 +71,7 @@ NoManaged == [clientip |-> NoHdr, xff |-> NoHdr, xrealip |-> NoHdr, tlshdr |-> N
               xfproto |-> NoHdr, forwarded |-> NoHdr, xfport |-> NoHdr, xfhost |-> NoHdr]
 NoUp   == [method |-> "", path |-> <<>>, query |-> <<>>, host |-> "", managed |-> NoManaged]
 NoLoc  == [scheme |-> "", host |-> "", path |-> <<>>, qmode |-> "", query |-> <<>>]
-NoOut  == [kind |-> "", status |-> 0, page |-> "", loc |-> NoLoc, resp |-> "", sts |-> NoHdr]
+NoOut  == [kind |-> "", status |-> 0, page |-> "", loc |-> NoLoc, resp |-> "", sts |-> NoHdr, cut |-> FALSE]
 
 -----------------------------------------------------------------------------
 \* C07: what BuildTarget makes of the request
@@ -114,8 +115,12 @@ PointsBack(r) == LET l == Location(r, c.path, c.query) IN
 \*   "prefix" one value, which starts with vals[1]
 \*   "fwd"    one Forwarded value with for=vals[1]; proto is "secure" (https/wss), "insecure" (http/ws) or "any"
 \*   "any"    not judged (the statement is silent)
+\* "truefirst" / "truelast": the header is sent twice, one copy says the truth ("true": the value fabio itself would
+\* put there), the other is forged
 ClientVals(h) == CASE c.forged[h] = "absent" -> <<>>
                    [] c.forged[h] = "twice"  -> IF h = "xfproto" THEN <<c.xfpval, "v2">> ELSE <<"v1", "v2">>
+                   [] c.forged[h] = "truefirst" -> <<"true", IF h = "xfproto" THEN c.xfpval ELSE "v1">>
+                   [] c.forged[h] = "truelast"  -> <<IF h = "xfproto" THEN c.xfpval ELSE "v1", "true">>
                    [] OTHER                  -> IF h = "xfproto" THEN <<c.xfpval>> ELSE <<"v1">>    \* once / odd-cased name
 Eq(v) == [mode |-> "eq", vals |-> v]
 \* the configured client-IP header is overwritten with the peer
@@ -128,8 +133,10 @@ XffClient    == CASE c.forged["xff"] = "absent" -> <<>>
                   [] c.forged["xff"] = "sfx"    -> <<"x1", "sfxpeer">>
                   [] c.forged["xff"] = "pfx"    -> <<"x1", "peerpfx">>
                   [] c.forged["xff"] = "dup"    -> <<"x1", "peer">>
+                  [] c.forged["xff"] = "truelast"  -> <<"x1", "peer">>
+                  [] c.forged["xff"] = "truefirst" -> <<"peer", "x1">>
                   [] OTHER -> <<"x1">>
-ExpXFF       == [mode |-> IF c.forged["xff"] = "dup" THEN "listdup" ELSE "list", vals |-> XffClient \o <<"peer">>]
+ExpXFF       == [mode |-> IF c.forged["xff"] \in {"dup", "truelast"} THEN "listdup" ELSE "list", vals |-> XffClient \o <<"peer">>]
 \* X-Real-Ip carries the peer unless the client already sent one
 ExpRealIP    == IF Sent("xrealip") THEN Eq(ClientVals("xrealip")) ELSE Eq(<<"peer">>)
 \* the TLS header is present with the configured value exactly when the connection used TLS, whatever was sent
@@ -139,7 +146,7 @@ ExpTLSHdr    == IF c.cfgtls THEN (IF c.tls THEN Eq(<<"cfgvalue">>) ELSE Eq(<<>>)
 ExpXFProto   == IF Sent("xfproto") THEN Eq(ClientVals("xfproto"))
                 ELSE IF Sent("forwarded") THEN [mode |-> "any", vals |-> <<>>]
                 ELSE Eq(<<IF c.tls THEN "https" ELSE "http">>)
-ExpForwarded == IF Sent("forwarded") THEN [mode |-> "prefix", vals |-> <<"v1">>]
+ExpForwarded == IF Sent("forwarded") THEN [mode |-> "prefix", vals |-> <<ClientVals("forwarded")[1]>>]
                 ELSE [mode |-> "fwd", vals |-> <<"peer", IF Sent("xfproto") THEN "any" ELSE IF c.tls THEN "secure" ELSE "insecure">>]
 \* X-Forwarded-Port / -Host describe the host the client asked for, even when the route rewrites Host
 ExpXFPort    == IF Sent("xfport") THEN Eq(ClientVals("xfport"))
@@ -202,7 +209,8 @@ Forward  == /\ pc = "headers"
             /\ pc' = "forwarded"
             /\ UNCHANGED <<sel, c, i, route, up, out>>
 Respond  == /\ pc = "forwarded"
-            /\ out' = [NoOut EXCEPT !.kind = "upstream", !.resp = c.resp, !.sts = ExpSTS]
+            \* an upstream that dies before its answer is complete: the client must not be told the answer is complete
+            /\ out' = [NoOut EXCEPT !.kind = "upstream", !.resp = c.resp, !.sts = ExpSTS, !.cut = (c.resp \in Faulty)]
             /\ pc' = "done"
             /\ UNCHANGED <<sel, c, i, route, up, hits>>
 
@@ -227,6 +235,7 @@ EscapesSurvive    == Forwarded => EscapesOf(up.path) = EscapesOf(WireSeq(route.p
 OnlyStripAndPrepend == (Forwarded /\ route.strip = <<>> /\ route.prepend = <<>>) => up.path = c.path
 QueryMergedInFront == Forwarded => IsPrefix(route.tquery, up.query) /\ Drop(up.query, Len(route.tquery)) = c.query
 HostOnlyOnRequest  == (Forwarded /\ route.hostopt = "") => up.host = "req"
+FaultNotHidden == (pc = "done" /\ out.kind = "upstream") => (out.cut = (c.resp \in Faulty))
 \* C08
 PeerIsTold == Forwarded => /\ Last(up.managed.xff.vals) = "peer"
                            /\ (c.cfgip => up.managed.clientip.vals = <<"peer">>)
